@@ -94,6 +94,14 @@ fn run(src: &Path, out: &Path) -> Result<(), String> {
                 .join(",\n"),
         );
         json.push_str("\n],\n");
+        json.push_str("\"fns\": [\n");
+        json.push_str(
+            &fns.iter()
+                .map(|f| format!("  {{\"file\": {}, \"name\": {}, \"line\": {}}}", json_str(&f.file), json_str(&f.name), f.line))
+                .collect::<Vec<_>>()
+                .join(",\n"),
+        );
+        json.push_str("\n],\n");
     }
 
     // GenSig / GenBounds
